@@ -40,3 +40,15 @@ NOTES["C06"] = dict(
           "not proved for all layouts, at this commit."),
     technique="Lean 4 proof (sums over association lists) on an executable model; array-level and dense-image correspondence",
 )
+
+NOTES["C03"] = dict(
+    text=("Lean theorems, unbounded in ranks/sizes: the owner map is exact and monotone; the receive side (runs of equal owners) and every rank's "
+          "send side agree for every arrival order; the message-level forward exchange delivers slot j = owner's value of index j (any payload "
+          "type: scalars, blocks, sparse rows), is natural in the payload, survives column filtering; the reverse exchange folds every "
+          "contribution into its owner's entry and nothing else, is independent of arrival order for commutative reductions, and with sum is the "
+          "exact adjoint of the forward exchange. The model's package arrays equal those of the real ParComm; buffers/results of communicate, "
+          "communicate_T, conditional_comm(_T) and the sparse-row exchanges of ParComm and TAPComm equal the model on every generated layout."),
+    note=("Trusted: Lean kernel + standard axioms; MPI transport (unmodified delivery, per-pair FIFO); arrival order is a model parameter "
+          "(send messages compared keyed by peer). Open finding: node-aware package on a ragged last node (known_findings.json)."),
+    technique="Lean 4 proof on a message-level model of the halo package; array-level correspondence with the real ParComm/TAPComm",
+)
